@@ -237,13 +237,16 @@ fn run_filters(
                 vm.update_builtin_var(BuiltinVarType::NP, Rc::new(Object::Integer(count)));
                 // Run filter statements on the packet
                 for filter in &filters {
+                    // A filter that fails ends the run. The VM is left in the middle
+                    // of the failed call, so neither a later filter nor the end
+                    // filter can be run on it
                     if let Err(err) = vm.push_filter_frame(filter) {
                         eprintln!("{}", err);
-                        break 'out;
+                        return;
                     }
                     if let Err(err) = vm.run() {
                         eprintln!("{}", err);
-                        break 'out;
+                        return;
                     }
                     // If the result of the filter is true, then write the packet to stdout
                     // The result is true when the action is not specified and the pattern
